@@ -4,6 +4,8 @@ import (
 	"bytes"
 	"fmt"
 	"math/rand"
+	"regexp"
+	"strconv"
 	"strings"
 
 	"github.com/relex/slog-agent/input/syslogprotocol"
@@ -106,6 +108,8 @@ func sameRecs(a, b [][]byte) bool {
 	return true
 }
 
+var validStartRe = regexp.MustCompile(`^<(0|[1-9][0-9]{0,2})>1 [^ \n]+ [^ \n]+ [^ \n]+ [^ \n]+ [^ \n]+ `)
+
 // Oracle: C08 evaluated on the implementation alone.
 //
 //	meta "frag":   newline-terminated stream, reads only, no overflow possible: the emitted records must equal those of
@@ -115,6 +119,14 @@ func (f *frameComp) Oracle(c Case, impl []string) string {
 	for _, l := range impl {
 		if strings.HasPrefix(l, "panic") || l == "stuck" {
 			return "reader " + l
+		}
+	}
+	if len(c.Ops) == 1 && c.Ops[0].Name == "frame test" && len(impl) == 1 && impl[0] != "1" {
+		// decided here, independently of the generator: <PRI>1, PRI 0-191 without leading zero, five more tokens, 32+ bytes
+		if m := validStartRe.FindSubmatch(c.Ops[0].Bytes[0]); m != nil && len(c.Ops[0].Bytes[0]) >= 32 {
+			if pri, err := strconv.Atoi(string(m[1])); err == nil && pri <= 191 {
+				return fmt.Sprintf("the first line of a valid record is not recognised as a record start: %q", c.Ops[0].Bytes[0])
+			}
 		}
 	}
 	if len(c.Ops) == 0 || c.Ops[0].Name != "frame new" {
@@ -134,7 +146,13 @@ func (f *frameComp) Oracle(c Case, impl []string) string {
 			hasFlush = true
 		}
 	}
-	if len(stream) == 0 || stream[len(stream)-1] != '\n' || len(stream) >= int(c.Ops[0].Ints[1]) {
+	// no overflow handling can be triggered while the buffered data leaves room for one more record of the soft limit:
+	// the buffer is max(minBuf, 3*soft) bytes (newMultiLineReader), so any stream shorter than buffer - soft qualifies
+	bufSize := int(c.Ops[0].Ints[0])
+	if soft3 := 3 * int(c.Ops[0].Ints[1]); soft3 > bufSize {
+		bufSize = soft3
+	}
+	if len(stream) == 0 || stream[len(stream)-1] != '\n' || len(stream) >= bufSize-int(c.Ops[0].Ints[1]) {
 		return "" // shrunk out of the oracle's domain
 	}
 	if c.Ops[len(c.Ops)-1].Name != "frame flushall" {
@@ -183,7 +201,7 @@ func (f *frameComp) Class(c Case, impl []string) string {
 }
 
 func validLine(rng *rand.Rand) []byte {
-	pri := []string{"<1>", "<13>", "<163>", "<191>"}[rng.Intn(4)]
+	pri := []string{"<1>", "<13>", "<163>", "<191>", "<0>", "<9>", "<10>", "<99>", "<100>"}[rng.Intn(9)]
 	msg := make([]byte, rng.Intn(30))
 	for i := range msg {
 		msg[i] = "abc xyz<>1 é"[rng.Intn(12)]
@@ -243,6 +261,10 @@ func (f *frameComp) Generate(rng *rand.Rand, n int, emit func(Case)) {
 		"<12>1\t2019-08-15T15:50:46 h i 1 nnn", "<123>12019-08-15T15:50:46 h i 1 nnnn"} {
 		emit(Case{Ops: []Op{{Name: "frame test", Bytes: [][]byte{[]byte(s)}}}, Tag: "recordtest"})
 	}
+	// every priority starts a record
+	for pri := 0; pri < 192; pri++ {
+		emit(Case{Ops: []Op{{Name: "frame test", Bytes: [][]byte{[]byte(fmt.Sprintf("<%d>1 2019-08-15T15:50:46Z host app 1 src - message", pri))}, Meta: "valid-start"}}, Tag: "recordtest"})
+	}
 	for i := 0; i < n/20; i++ {
 		b := validLine(rng)
 		b[rng.Intn(8)] = "<>1 09a"[rng.Intn(7)]
@@ -295,6 +317,25 @@ func (f *frameComp) Generate(rng *rand.Rand, n int, emit func(Case)) {
 			ops := append([]Op{newOp(rng.Intn(300), soft, "")}, cutRandom(rng, stream, 15)...)
 			emit(Case{Ops: append(ops, Op{Name: "frame flushall"}), Tag: "random-overflow"})
 		}
+	}
+	// the listener's buffer is four soft limits (defs.ListenerLineBufferSize): long multi-line records that fill more than
+	// half of it but leave room for another record, cut at random
+	for i := 0; i < n/40+5; i++ {
+		soft := 60 + rng.Intn(80)
+		var stream []byte
+		stream = append(append(stream, validLine(rng)...), '\n')
+		long := append([]byte{}, validLine(rng)...)
+		target := 2*soft + 5 + rng.Intn(soft/2)
+		for len(long) < target {
+			long = append(append(long, '\n'), []byte("  at com.example.Foo.bar(Foo.java:12)")...)
+		}
+		stream = append(append(stream, long...), '\n')
+		stream = append(append(stream, validLine(rng)...), '\n')
+		if len(stream) >= 3*soft {
+			continue
+		}
+		ops := append([]Op{newOp(4*soft, soft, "frag")}, cutRandom(rng, stream, 0)...)
+		emit(Case{Ops: append(ops, Op{Name: "frame flushall"}), Tag: "long-record-ratio4"})
 	}
 	if n >= 100000 { // real sizes: a 1 MiB+ garbage blob and long records through the default buffer
 		big := bytes.Repeat([]byte("x"), 3*1024*1024)
